@@ -175,6 +175,10 @@ fn run_check(prop: &str, tier: Tier) -> i32 {
                 check.parts.extend(engines::kv::run("C04", tier, std::time::Instant::now()).into_iter().take(1));
                 check.parts.extend(engines::catchup::run_for("C04", tier, std::time::Instant::now()));
             }
+            if p == "C03" {
+                // entries installed through the catch-up entry point must be the supplied ones, unaltered
+                check.parts.extend(engines::catchup::run_for("C03", tier, std::time::Instant::now()));
+            }
             check.parts.extend(engines::pair::run(p, tier, std::time::Instant::now()));
             if p == "C01" {
                 check.parts.extend(engines::membership::run("C01", tier, std::time::Instant::now()));
